@@ -493,6 +493,7 @@ def _odd_hosts():
     if _ODD is None:
         al = ["a", "b", "c", "*", "!a", "x"]
         _ODD = [".".join(t) for d in range(1, 4) for t in itertools.product(al, repeat=d)]
+        _ODD += ["a..b", ".a", "a.", "..", ".", "b..", "a..a.b", "..a", "a.b..", "!", "!.a", "!!a.b"]
     return _ODD
 
 
